@@ -43,6 +43,81 @@ def OrientOnlyP (s s' : PBits) : Prop :=
 def OrientOnlyC (s s' : CBits) : Prop :=
   s.un = true ∧ s'.un = false ∧ s'.directed_uv = true ∧ s'.directed_vu = s.directed_vu
 
+
+/-! ### vocabulary of the public mutations -/
+
+/-- `MixedEdgeGraph.add_edge(u, v, t)` once the guard has passed (`t` names a layer or is 'all') -/
+def rawAddP (t : ET) (s : PBits) : PBits :=
+  match t with
+  | .directed => { s with directed_uv := true }
+  | .circle => { s with circle_uv := true }
+  | .bidirected => { s with bi := true }
+  | .undirected => { s with un := true }
+  | .all => { s with directed_uv := true, circle_uv := true, bi := true, un := true }
+  | .other => s
+
+def rawAddC (t : ET) (s : CBits) : CBits :=
+  match t with
+  | .directed => { s with directed_uv := true }
+  | .undirected => { s with un := true }
+  | .all => { s with directed_uv := true, un := true }
+  | _ => s
+
+
+inductive Op
+  | add (t : ET) (u v : Nat)
+  | addBulk (t : ET) (es : List (Nat × Nat))        -- add_edges_from
+  | remove (t : ET) (u v : Nat)
+  | removeBulk (t : ET) (es : List (Nat × Nat))     -- remove_edges_from
+  | orient (u v : Nat)
+deriving Repr
+
+def Op.pairs : Op → List (Nat × Nat)
+  | .add _ u v => [(u, v)]
+  | .addBulk _ es => es
+  | .remove _ u v => [(u, v)]
+  | .removeBulk _ es => es
+  | .orient u v => [(u, v)]
+
+/-- the operation does not *add* with `edge_type='all'` (known finding; removal with 'all' is fine) -/
+def Op.NoAll : Op → Prop
+  | .add t _ _ => t ≠ .all
+  | .addBulk t _ => t ≠ .all
+  | _ => True
+
+/-- every member names two different nodes -/
+def Op.NoLoop (op : Op) : Prop := ∀ e ∈ op.pairs, e.1 ≠ e.2
+
+
+/-! ### the property for one class
+
+`step g op = (g', raised)` is the class's behaviour on a public mutation, `isValid` what
+`is_valid_mec_graph` answers on one pair, `store t s` what a successful addition of a `t` edge on
+(u,v) stores.  `edge_type='all'` additions are excluded (known finding: they are accepted and always
+create contradictory marks). -/
+structure Holds {σ : Type} [PairState σ] (Good : σ → Bool) (OrientOnly : σ → σ → Prop)
+    (store : ET → σ → σ) (named : ET → Prop)
+    (step : PairMap σ → Op → PairMap σ × Bool) (isValid : σ → Bool) : Prop where
+  /-- "never has …": the invariant survives every mutation, successful or not — so, by induction,
+      it holds after every history and in every reachable graph -/
+  preserved : ∀ g op, PairMap.All (fun s => Good s = true) g → op.NoAll →
+      PairMap.All (fun s => Good s = true) (step g op).1
+  /-- "a mutation that would break this raises …" -/
+  rejects : ∀ g t u v, PairMap.All (fun s => Good s = true) g → named t → u ≠ v →
+      Good (store t (g.rd u v)) = false → (step g (.add t u v)).2 = true
+  /-- "… and leaves the graph exactly as it was" (any raising mutation, also bulk and orient) -/
+  atomic : ∀ g op, PairMap.All (fun s => Good s = true) g → op.NoLoop →
+      (step g op).2 = true → (step g op).1 = g
+  /-- "is_valid_mec_graph accepts every reachable graph" (and only graphs without contradictions) -/
+  valid : ∀ s, isValid s = true ↔ Good s = true
+  /-- "orient_uncertain_edge changes only the one circle/undirected mark it is asked to orient" -/
+  orient_only : ∀ g u v, PairMap.All (fun s => Good s = true) g → u ≠ v →
+      (step g (.orient u v)).2 = false →
+      OrientOnly (g.rd u v) ((step g (.orient u v)).1.rd u v) ∧
+      ∀ a b, (a, b) ≠ PairMap.key u v → (step g (.orient u v)).1 a b = g a b
+  /-- an operation touches only the pairs it names -/
+  frame : ∀ g op a b, (∀ e ∈ op.pairs, (a, b) ≠ PairMap.key e.1 e.2) → (step g op).1 a b = g a b
+
 theorem GoodP_swap (s : PBits) : GoodP s.swap = GoodP s := by
   rcases s with ⟨a, b, c, d, e, f⟩
   revert a b c d e f; decide
